@@ -1,4 +1,7 @@
 import MimicProofs.Script
+import Mimic.Reply
+import MimicProofs.Reply
+import MimicProofs.Wire
 /-!
 # C03 — Every command gets exactly one complete, well-formed response (lockstep)
 
@@ -308,5 +311,108 @@ theorem resp_good (ops : List Op) (h : ∀ op ∈ ops, op ≠ .quit ∧ op ≠ .
 example : ({ phase := .idle } : S).phase = .idle ∧ ({ phase := .idle } : S).lost = false ∧
     (∀ op ∈ scriptOf false (.query { ncols := 2, rows := [.row 1 false, .row 2 true] }), op.lifecycle = false) :=
   ⟨rfl, rfl, scriptOf_no_lifecycle _ _⟩
+
+
+/-! ### byte level: the packets every response is made of -/
+
+open Mimic.Wire Mimic.Reply MimicProofs.Reply in
+/-- **OK packets decode to what was sent** (4.1 protocol; all counters in range) -/
+theorem ok_roundtrip (trans : Bool) (o : Ok) (h1 : o.affected < 2 ^ 64) (h2 : o.lastId < 2 ^ 64) (h3 : o.status < 2 ^ 16) (h4 : o.warnings < 2 ^ 16) :
+    decOk (encOk true trans o) = some o := by
+  obtain ⟨e, a, l, st, w⟩ := o
+  simp only at h1 h2 h3 h4
+  have hs : st < 256 ^ 2 := by omega
+  have hw : w < 256 ^ 2 := by omega
+  cases e <;>
+    simp [encOk, decOk, List.append_assoc, decLen_encLen _ h1, decLen_encLen _ h2, readUInt_leN 2 st hs,
+      (by simpa using readUInt_leN 2 w hw [] : readUInt 2 (leN 2 w) = some (w, []))]
+
+open Mimic.Wire Mimic.Reply in
+/-- EOF packets decode to what was sent -/
+theorem eof_roundtrip (e : Eof) (h1 : e.warnings < 2 ^ 16) (h2 : e.status < 2 ^ 16) : decEof (encEof true e) = some e := by
+  obtain ⟨w, st⟩ := e
+  simp only at h1 h2
+  have hs : st < 256 ^ 2 := by omega
+  have hw : w < 256 ^ 2 := by omega
+  simp [encEof, decEof, readUInt_leN 2 w hw, (by simpa using readUInt_leN 2 st hs [] : readUInt 2 (leN 2 st) = some (st, []))]
+
+open Mimic.Wire Mimic.Reply in
+/-- ERR packets decode to the code, SQLSTATE and message that were sent -/
+theorem err_roundtrip (e : Err) (h1 : e.code < 2 ^ 16) (h2 : e.state.length = 5) : decErr (encErr true e) = some e := by
+  obtain ⟨c, st, m⟩ := e
+  simp only at h1 h2
+  have hc : c < 256 ^ 2 := by omega
+  simp [encErr, decErr, List.append_assoc, readUInt_leN 2 c hc, h2]
+
+open Mimic.Wire Mimic.Reply MimicProofs.Reply in
+/-- **Every column definition is decodable by a standard client** and yields exactly the fields that were sent —
+    the plain form and the COM_FIELD_LIST form with a default value. -/
+theorem coldef_roundtrip (c : ColDef)
+    (hs : c.schema.length < 2 ^ 64) (ht : c.table.length < 2 ^ 64) (ho : c.orgTable.length < 2 ^ 64) (hn : c.name.length < 2 ^ 64)
+    (hon : c.orgName.length < 2 ^ 64) (hcs : c.charset < 2 ^ 16) (hl : c.length < 2 ^ 32) (hty : c.type < 2 ^ 8) (hf : c.flags < 2 ^ 16)
+    (hd : c.decimals < 2 ^ 8) (hdef : ∀ d, c.default = some (some d) → d ≠ [] ∧ d.length < 2 ^ 64) :
+    decColDef c.default.isSome (encColDef c) = some c := by
+  obtain ⟨sc, tb, ot, nm, on, cs, ln, ty, fg, dc, df⟩ := c
+  simp only at hs ht ho hn hon hcs hl hty hf hd hdef
+  have e1 : cs < 256 ^ 2 := by omega
+  have e2 : ln < 256 ^ 4 := by omega
+  have e3 : ty < 256 ^ 1 := by omega
+  have e4 : fg < 256 ^ 2 := by omega
+  have e5 : dc < 256 ^ 1 := by omega
+  have e6 : (0 : Nat) < 256 ^ 2 := by decide
+  unfold decColDef encColDef
+  simp only [List.append_assoc]
+  have hcat : ([0x64, 0x65, 0x66] : Bytes).length < 2 ^ 64 := by decide
+  simp only [decStrStrict_encStr _ _ hcat, decStrStrict_encStr _ _ hs, decStrStrict_encStr _ _ ht, decStrStrict_encStr _ _ ho,
+    decStrStrict_encStr _ _ hn, decStrStrict_encStr _ _ hon, decLen_encLen 0x0C (by decide), readUInt_leN 2 cs e1, readUInt_leN 4 ln e2,
+    readUInt_leN 1 ty e3, readUInt_leN 2 fg e4, readUInt_leN 1 dc e5, readUInt_leN 2 0 e6, ne_eq, not_true_eq_false, if_false]
+  cases df with
+  | none => simp
+  | some d =>
+    cases d with
+    | none =>
+      simp only [Option.isSome_some, if_true]
+      have : decStrStrict (encLen 0) = some ([], []) := by decide
+      simp [this]
+    | some d =>
+      obtain ⟨hne, hlen⟩ := hdef d rfl
+      simp only [Option.isSome_some, if_true]
+      have := decStrStrict_encStr d [] hlen
+      rw [List.append_nil] at this
+      simp [this, hne]
+
+open Mimic.Wire Mimic.Reply MimicProofs.Reply in
+/-- **Packet kinds are told apart by their first byte**: OK starts 0x00 (or 0xFE as terminator), ERR 0xFF, EOF 0xFE
+    and is shorter than 9 bytes; a length-encoded cell never starts with 0xFF, and one that starts with 0xFE is a
+    string of at least 2^24 bytes — so a text row is never mistaken for ERR or EOF. -/
+theorem packet_kinds_distinct (o : Ok) (e : Eof) (r : Err) (s : Bytes) (trans : Bool) :
+    (encOk true trans o).head? = some (if o.eofHeader then 0xFE else 0x00) ∧
+    (encEof true e).head? = some 0xFE ∧ (encEof true e).length = 5 ∧
+    (encErr true r).head? = some 0xFF ∧
+    (encStr s).head? ≠ some 0xFF ∧
+    ((encStr s).head? = some 0xFE → 9 ≤ (encStr s).length) := by
+  refine ⟨by simp [encOk], by simp [encEof], by simp [encEof], by simp [encErr], ?_, ?_⟩
+  · unfold encStr
+    cases hl : encLen s.length with
+    | nil => exact absurd hl (encLen_ne_nil _)
+    | cons b rest =>
+      simp only [List.cons_append, List.head?_cons, ne_eq, Option.some.injEq]
+      exact encLen_head_ne_ff _ b rest hl
+  · intro h
+    unfold encStr at h ⊢
+    unfold encLen at h ⊢
+    split at h
+    · rename_i hn
+      simp only [List.cons_append, List.nil_append, List.head?_cons, Option.some.injEq] at h
+      have : (UInt8.ofNat s.length).toNat = 254 := by rw [h]; rfl
+      rw [UInt8.toNat_ofNat'] at this
+      omega
+    · split at h
+      · simp at h
+      · split at h
+        · simp at h
+        · rename_i h1 h2 h3
+          rw [if_neg h1, if_neg h2, if_neg h3]
+          simp [leN_length]
 
 end MimicProps.C03
